@@ -405,7 +405,7 @@ def pyobjects(kind, tk, n, tier, r: Result):
             r.no_verdict += 1
             r.out('key without a Python presentation of its own (skipped)')
     progs = programs(kind, tk, K)
-    for entries in py_entries(tk, n, tier):
+    for entries in py_entries(tk, len(K), tier):
         if any(i not in representable for i, _ in entries):
             continue
         for container in (('list', 'set') if kind == 'set' else ('dict',)):
